@@ -509,6 +509,24 @@ def _check_main(ctx):
                     ctx.violation("cexp-display:" + mini, mini, "status 1, a diagnosed error, nothing printed on out",
                                   str((r1["status"], r1["escaped"], r1["out"][:120], r1["err"][:120])), how_py % ("from ka.interpret import execute; execute(%r)" % mini))
 
+    # coefficients whose upper argument is far beyond a machine word: oracle only.  Only uses that go through the lazy mul / div
+    # (a bare `C(n,k) + 1` multiplies most of n! out before dividing it away — slow on the reviewed tree, not a wrong value)
+    big_n = [2 ** 63 + 5, 2 ** 64, 2 ** 70, 10 ** 30, 2 ** 64 - 1]
+    for nn in big_n:
+        for kk in (1, 2, 3):
+            cv = Fraction(math.comb(nn, kk))
+            for txt, q in [("1*C(%d,%d)" % (nn, kk), cv), ("C(%d,%d)*(1/3)" % (nn, kk), cv / 3), ("6/C(%d,%d)" % (nn, kk), 6 / cv),
+                           ("C(%d,%d)/C(%d,%d)" % (nn, kk + 1, nn, kk), Fraction(math.comb(nn, kk + 1)) / cv),
+                           ("x = C(%d,%d)*1; x+1" % (nn, kk), cv + 1)]:
+                rr = reduce_real(R, raw_eval(R, txt, timeout=10.0)) if ";" not in txt else None
+                if rr is None:
+                    k_, v_ = R.value(txt, timeout=10.0)
+                    rr = (k_, v_)
+                got = show_num(rr)
+                ctx.count(txt, bucket="cexp/huge-upper-argument")
+                if got != "ok " + canon_q(q):
+                    ctx.violation("cexp:" + txt, txt, "ok " + canon_q(q), got, how_py % ("from ka.interpret import execute; execute(%r)" % txt))
+
     def agree(real_ans, model_ans, info):
         parts = model_ans.split(" | ")
         if len(parts) != 3:
